@@ -12,7 +12,7 @@
 (* partial: outside the domain the properties quantify over the slot is     *)
 (* Unspec and only C01 (some slot, no panic) applies.                       *)
 (***************************************************************************)
-EXTENDS Env, Calendar, TLC
+EXTENDS Env, UnixTime, TLC
 
 ArithMeaning(toks) ==
   IF DateLike(toks) THEN Unspec
@@ -60,6 +60,13 @@ LineMeaning(ctx, line) ==
     [] line.form = "date_diff" ->
          LET a == DateOperand(line.a, ctx.today)  b == DateOperand(line.b, ctx.today) IN
          [slot |-> IF a.k = "date" /\ b.k = "date" THEN DiffDates(a, b) ELSE Unspec, env |-> ctx.env]
+    [] line.form = "unix_from" -> [slot |-> FromUnix(line.ts, ZoneOr(line.z, ctx.calc.tz)), env |-> ctx.env]
+    [] line.form = "unix_round" -> [slot |-> DateTimeToUnix(FromUnix(line.ts, ZoneOr(line.z, ctx.calc.tz))), env |-> ctx.env]
+    [] line.form = "unix_to_date" ->
+         LET a == DateOperand(line.a, ctx.today) IN
+         [slot |-> IF a.k = "date" THEN DateToUnix(a) ELSE Unspec, env |-> ctx.env]
+    [] line.form = "unix_to_time" ->
+         [slot |-> IF ctx.calc.tz.off = 0 THEN TimeToUnix(line.w, ctx.today) ELSE Unspec, env |-> ctx.env]
     [] line.form = "shape"   -> [slot |-> Unspec, env |-> ctx.env]
     [] OTHER                 -> [slot |-> Unspec, env |-> ctx.env]
 
@@ -92,12 +99,14 @@ PrintMatches(exp, obs) ==
   /\ (exp.k = "dur" /\ Has(obs, "parts")) => obs.parts = DurParts(exp)
   /\ (exp.k = "time" /\ Has(obs, "pr")) => obs.pr = TimePrinted(exp)
 PrintMatchesCtx(ctx, exp, obs) ==
-  (exp.k = "date" /\ Has(obs, "pr")) => DatePrintedOk(exp, ctx.today, obs.pr)
+  /\ (exp.k = "date" /\ Has(obs, "pr")) => DatePrintedOk(exp, ctx.today, obs.pr)
+  /\ (exp.k = "datetime" /\ Has(obs, "pr")) => DateTimePrintedOk(exp, ctx.today, obs.pr)
 WithPrint(v) == IF v.k = "dur" THEN v @@ [parts |-> DurParts(v)]
                 ELSE IF v.k = "time" THEN v @@ [pr |-> TimePrinted(v)] ELSE v
 SlotMatches(exp, obs) ==
   IF exp.k = "fails" THEN obs.k \in SlotKinds
   ELSE IF exp.k = "notkind" THEN obs.k \in SlotKinds /\ obs.k # exp.kind
+  ELSE IF exp.k = "ts" THEN obs.k = "num" /\ Has(obs, "ts") /\ obs.ts = <<exp.d, exp.s>> /\ (Has(obs, "pr") => obs.pr = <<exp.d, exp.s>>)
   ELSE Matches(exp, obs) /\ PrintMatches(exp, obs)
 SlotMatchesCtx(ctx, exp, obs) == SlotMatches(exp, obs) /\ PrintMatchesCtx(ctx, exp, obs)
 =============================================================================
